@@ -58,7 +58,7 @@ Qed.
 (* ---- the cleanup keeps the invariant and moves the limits; the current file is not touched ---- *)
 Lemma cleanup_tk c crit k e lo0 hi w wr keys closed lo mid :
   tsdkcfg c crit k -> tside c k -> years_ok e lo0 hi -> (wnow w <= hi)%Z -> TsdKInv c e lo0 w wr keys closed lo mid ->
-  exists w', cleanup_impl c w k (IFTs std_fmt) true = (Ok tt, w') /\ same_env w w'
+  exists w', cleanup_impl c w k (IFTs std_fmt) (Some (tname c e keys (length closed))) = (Ok tt, w') /\ same_env w w'
     /\ TsdKInv c e lo0 w' wr keys closed (dnew_lo k lo (length closed)) (dnew_mid k mid (length closed))
     /\ cur_view w' wr = cur_view w wr.
 Proof.
@@ -70,9 +70,10 @@ Proof.
     assert (Elen : length all = S (length closed)) by (unfold all; apply glen_snoc).
     assert (Hlen' : length keys = length all) by (rewrite Elen; exact Hlen).
     pose proof (gnames_ts c e keys Hsfx Hko Yk) as GN. rewrite Hlen' in GN.
-    rewrite (cleanup_impl_unfold_d c w k (IFTs std_fmt) n m Ek Q), (fixed_of_fixed0 c w Hts).
+    rewrite (cleanup_impl_unfold_d c w k (IFTs std_fmt) n m _ Ek Q), (fixed_of_fixed0 c w Hts).
     rewrite (list_log_gz_ts c e (woff w) (wfs w) keys all lo mid Hsfx Hko Yk Hlen' KD).
-    destruct (gcleanup (tname c e keys) (cname c) w n m all lo mid GN Q W KD) as (w' & E & S & W' & KD' & SC & SR).
+    destruct (gcleanup_d (tname c e keys) (cname c) w n m all lo mid GN Q W KD Hn) as (w' & E & S & W' & KD' & SC & SR).
+    replace (length all - 1) with (length closed) in E by (rewrite Elen; lia).
     unfold cleanup_body in E. rewrite E. clear E.
     rewrite Elen in KD', SR.
     assert (SL : same_at (wfs w) (wfs w') (tname c e keys (length closed))) by (apply SR; lia).
@@ -199,7 +200,7 @@ Proof.
     - reflexivity. }
   assert (Hhi3 : (wnow w3 <= hi)%Z) by (rewrite (same_env_now _ _ SE); exact Hhi).
   destruct (cleanup_tk c crit k e lo0 hi w3 wr' _ _ _ _ Hcfg Hside Y Hhi3 I3) as (w4 & Ecl & S4 & I4 & V4).
-  rewrite Ecl. rewrite Elen, dnew_lo_step, dnew_mid_step in I4.
+  rewrite Elen, Enew in Ecl. rewrite Ecl. rewrite Elen, dnew_lo_step, dnew_mid_step in I4.
   exists w4, wr', (reset_size_and_date w3 roll (kname c e knew)).
   split; [reflexivity|]. split; [exact I4|].
   split. { rewrite V4. unfold cur_view. rewrite F3'. cbn [wr' wino wpend]. unfold content. rewrite Inew. reflexivity. }
@@ -373,11 +374,12 @@ Proof.
     - unfold wr_ok, wr. cbn. destruct (c_cap c); [lia | reflexivity].
     - reflexivity. }
   (* the initial cleanup *)
-  assert (Ecl : match k with KNever => (Ok tt, w2) | _ => cleanup_impl c w2 k (ns_filter (NSTs (wnow w) None std_fmt)) (naming_writes_direct NTimestampsDirect) end
-                = cleanup_impl c w2 k (IFTs std_fmt) true) by (destruct k; reflexivity).
+  assert (Ecl : forall d, match k with KNever => (Ok tt, w2) | _ => cleanup_impl c w2 k (ns_filter (NSTs (wnow w) None std_fmt)) (if naming_writes_direct NTimestampsDirect then Some d else None) end
+                = cleanup_impl c w2 k (IFTs std_fmt) (Some d)) by (intros d; destruct k; reflexivity).
   rewrite Ecl. clear Ecl.
   assert (Hhi2 : (wnow w2 <= hi)%Z) by (rewrite (same_env_now _ _ S2); exact Hhi).
-  destruct (cleanup_tk c crit k e lo0 hi w2 wr [k0] [] 0 0 Hcfg Hside Y Hhi2 I2) as (w4 & E4 & S4 & I4 & V4). rewrite E4. cbn [bind].
+  destruct (cleanup_tk c crit k e lo0 hi w2 wr [k0] [] 0 0 Hcfg Hside Y Hhi2 I2) as (w4 & E4 & S4 & I4 & V4).
+  change (tname c e [k0] (length (@nil bytes))) with (kname c e k0) in E4. rewrite E4. cbn [bind].
   assert (Ebg : match k with KNever => false | _ => c_bg c end = false) by (destruct k; auto).
   rewrite Ebg.
   assert (Z0 : dnew_lo k 0 (length (@nil bytes)) = 0 /\ dnew_mid k 0 (length (@nil bytes)) = 0).
